@@ -506,25 +506,26 @@ pub fn cfgs(tier: &str) -> Vec<(String, Cfg, Limits)> {
         let mut t = big.clone();
         t.drops = 1;
         t.dups = 1;
+        t.ticks = [1, 0];
         t.iss = [u32::MAX - 1, u32::MAX - 2];
-        v.push(("close both, w[2|1] drop1 dup1 tick1, iss at wrap".to_string(), t, wall(1800)));
+        v.push(("close both, w[2|1] drop1 dup1 tick(1,0), iss at wrap".to_string(), t, wall(1800)));
         let mut t2 = Cfg::basic(100, 100, 300);
         t2.open_b = true;
         t2.closes = [true, true];
-        t2.writes = [vec![1], vec![1]];
-        t2.drops = 1;
+        t2.writes = [vec![1], vec![]];
+        t2.drops = 0;
         t2.dups = 1;
-        t2.ticks = [1, 1];
+        t2.ticks = [0, 0];
         t2.time_wait_expiry = true;
-        v.push(("simultaneous open, close both, w[1|1] drop1 dup1 tick1".to_string(), t2, wall(1800)));
+        v.push(("simultaneous open, close both, w[1|] dup1".to_string(), t2, wall(1800)));
         let mut t3 = Cfg::basic(100, 100, 300);
         t3.old_syn = Some(90);
         t3.closes = [true, true];
         t3.writes = [vec![1], vec![1]];
-        t3.drops = 1;
+        t3.drops = 0;
         t3.dups = 1;
-        t3.ticks = [1, 1];
-        v.push(("old duplicate SYN, close both, w[1|1] drop1 dup1 tick1".to_string(), t3, wall(1800)));
+        t3.ticks = [1, 0];
+        v.push(("old duplicate SYN, close both, w[1|1] dup1 tick(1,0)".to_string(), t3, wall(1800)));
         let mut t4 = Cfg::basic(1500, 100, 300);
         t4.writes = [vec![70_000], vec![]];
         t4.closes = [true, true];
